@@ -112,4 +112,17 @@ PROPS = {
   'assumptions': ['HTTP origins implement Range and If-Match as RFC 7232/7233 say', 'for the local backend a replacement changes mtime or size'],
   'explanation': 'The read models of the three backends are compared with the real backends (opened through OpenBucket) on every case; the theorems state the property clauses for every object, offset and length.',
  },
+ 'C12': {
+  'uses_generated': True,
+  'rule': 'archives over all tile types (incl. unknown 0/6/255) x tile compressions (incl. unknown) x zoom ranges, shared contents, metadata with unicode/nesting/HTML characters or {}, '
+          'negative bounds, with and without public URL; requests: stored and absent tiles, zoom out of range, wrong extension, unknown archive, metadata, TileJSON, "/", unknown paths; '
+          'methods GET/HEAD/POST/DELETE/OPTIONS/PUT; conditional headers If-None-Match (same/other/*) and If-Match (same/other). ETags compared across all responses of the run. '
+          'All cases non-trivial; distinct by case line',
+  'trusted_base': ['net/http.ServeContent (conditional evaluation transcribed in Model/Http.v), httptest.ResponseRecorder', 'encoding/json and Go float formatting: TileJSON numbers are compared after rounding to E7',
+                   'xxhash64: "different bodies => different ETag" is checked on the bodies of one run (no-collision assumption)',
+                   'content type of archives with an UNKNOWN tile type is sniffed by net/http and not compared'],
+  'assumptions': ['a quiescent, single-version bucket (versions and faults are C08/C10)'],
+  'explanation': 'One lemma per clause of the mapping over serve_http; the content-type / encoding / extension tables are regenerated from the source and must equal the specification tables; '
+                 'the model is compared with ServeHTTP through a recorder on every case.',
+ },
 }
